@@ -407,6 +407,105 @@ def check(case):
     return Result(vio or None, sorted(orc.classes) or ["plain"], nontrivial)
 
 
+# ---- switches with an ignore window: one event per state the switch settles in ------------------------------------------
+WIN = {"s_w_no": (50, 0), "s_w_nc": (30, 1)}     # name -> (ignore_window_ms, inverted)
+WIN_PATCH = {"switches": {
+    "s_w_no": {"number": 11, "ignore_window_ms": 50, "events_when_activated": "w_no_on", "events_when_deactivated": "w_no_off"},
+    "s_w_nc": {"number": 12, "type": "NC", "ignore_window_ms": 30, "events_when_activated": "w_nc_on",
+               "events_when_deactivated": "w_nc_off"},
+}}
+case_window = st.lists(st.one_of(
+    st.tuples(st.just("hw"), st.sampled_from(sorted(WIN)), st.integers(0, 1)).map(list),
+    st.tuples(st.just("hw"), st.sampled_from(sorted(WIN)), st.integers(0, 1)).map(list).map(lambda o: o + ["by_name"]),
+    st.tuples(st.just("advance"), st.sampled_from([0, 1, 3, 10, 20, 29, 30, 31, 49, 50, 51, 80, 200])).map(list),
+), min_size=3, max_size=30).map(lambda ops: {"ops": ops})
+
+
+def check_window(case):
+    """Documented behaviour of ignore_window_ms: the events of a change are posted and a window starts; changes inside the
+    window post nothing; when the window ends and the switch is in another state than the one that opened it, the events
+    of that state are posted once. The logical state itself always mirrors the last hardware report (NO and NC)."""
+    vio = []
+    classes = set()
+    with Rig("switches", patches=WIN_PATCH) as rig:
+        m = rig.machine
+        got = []
+        names = {}
+        for sw, (_w, _inv) in WIN.items():
+            short = sw[2:]
+            for st_, evs in ((1, [short + "_on", sw + "_active"]), (0, [short + "_off", sw + "_inactive"])):
+                for e in evs:
+                    names[e] = (sw, st_)
+                    m.events.add_handler(e, lambda _e=e, **kwargs: got.append((_e, round(rig.now * 1000, 3))))
+        state = {sw: m.switches[sw].state for sw in WIN}
+        hw0 = {sw: state[sw] ^ inv for sw, (_w, inv) in WIN.items()}
+        window = {sw: None for sw in WIN}       # (end_ms, state that opened it)
+        expected = []
+        T0 = rig.now
+
+        def now_ms():
+            return round((rig.now - T0) * 1000, 3)
+
+        def expect(sw, st_, t):
+            short = sw[2:]
+            for e in ([short + "_on", sw + "_active"] if st_ else [short + "_off", sw + "_inactive"]):
+                expected.append((e, t))
+
+        def close_windows(upto):
+            for sw in sorted(WIN, key=lambda x: (window[x] or (0,))[0]):
+                w = window[sw]
+                if w is not None and w[0] <= upto + 1e-6:
+                    window[sw] = None
+                    if state[sw] != w[1]:
+                        classes.add("settled in the other state at the end of a window")
+                        expect(sw, state[sw], w[0])
+        del hw0
+        for o in case["ops"]:
+            if o[0] == "advance":
+                rig.advance(o[1] / 1000.0)
+                close_windows(now_ms())
+            else:
+                _, sw, hw = o[:3]
+                logical = hw ^ WIN[sw][1]
+                close_windows(now_ms())
+                if len(o) > 3:
+                    m.switch_controller.process_switch(sw, hw, logical=False)
+                else:
+                    obj = m.switches[sw]
+                    m.switch_controller.process_switch_by_num(obj.hw_switch.number, hw, obj.platform, logical=False)
+                rig.run_ready()
+                if logical != state[sw]:
+                    state[sw] = logical
+                    if window[sw] is None:
+                        window[sw] = (now_ms() + WIN[sw][0], logical)
+                        expect(sw, logical, now_ms())
+                    else:
+                        classes.add("change inside a window")
+                if m.switches[sw].state != logical:
+                    vio.append(violation("window:state-differs", "%s (%s) reported hw=%d: logical state is %d, expected %d" % (
+                        sw, "NC" if WIN[sw][1] else "NO", hw, m.switches[sw].state, logical)))
+                    break
+        rig.advance(0.3)
+        close_windows(now_ms())
+        gotn = [(e, round(t - T0 * 1000, 3)) for e, t in got]
+        if not vio and sorted(gotn) != sorted(expected):
+            from collections import Counter
+            ce, cg = Counter(e for e, _ in expected), Counter(e for e, _ in gotn)
+            if ce != cg:
+                diff = {k: (ce[k], cg[k]) for k in set(ce) | set(cg) if ce[k] != cg[k]}
+                kinds = sorted({("nc" if "nc" in k else "no") for k in diff})
+                vio.append(violation("window:event-count:" + ",".join(kinds), "events of switches with an ignore window (expected, posted) "
+                                     "differ: %r; posted %r, expected %r; operations %r" % (diff, gotn, expected, case["ops"])))
+            else:
+                vio.append(violation("window:event-time", "events of switches with an ignore window were posted at %r, expected %r" % (
+                    sorted(gotn), sorted(expected))))
+        exc = rig.exception_summaries()
+    if exc and not vio:
+        vio.append(violation("loop-exception", "exception reached the loop: %s" % exc[:2]))
+    return Result(vio or None, sorted(classes) or ["plain"], bool(classes))
+
+
 SUBCHECKS = [
     SubCheck("timeline", lambda: case_strategy, check, quick=3000, thorough=80000, procs_quick=8),
+    SubCheck("window", lambda: case_window, check_window, quick=1500, thorough=30000, procs_quick=4),
 ]
